@@ -207,11 +207,14 @@ def run(ch, ctx, fault=None):
                 hx = Fraction(oh) * pr
                 fits = ow <= fw and rnd(hx) <= fh
                 amb = near_half(hx) and (rnd(hx) in (fh, fh + 1))
-                twin = type(d["im"])(d["im"]._source)
-                twin.set_size(Size.ORIGINAL, frame_size=frame)
-                ori = tuple(twin.size)
-                twin.set_size(Size.FIT, frame_size=frame)
-                fit = tuple(twin.size)
+                try:
+                    twin = type(d["im"])(d["im"]._source)
+                    twin.set_size(Size.ORIGINAL, frame_size=frame)
+                    ori = tuple(twin.size)
+                    twin.set_size(Size.FIT, frame_size=frame)
+                    fit = tuple(twin.size)
+                except Exception as e:
+                    raise Violation("sizing_raised", dict(info, exc=repr(e)), "size")
                 if amb:
                     ok = result in (ori, fit)
                 else:
@@ -236,150 +239,156 @@ def run(ch, ctx, fault=None):
                           {"after": desc, "size": repr(got), "expected": val}, "history")
 
         n_ops = ch.int("n_ops", 8, ctx.cfg["max_ops"])
-        for i in range(n_ops):
-            op = ch.weighted("op", [
-                (6, "set_size"), (3, "assign"), (2, "prop"), (4, "resize"), (2, "cellpx"),
-                (3, "ratio"), (1, "swap"), (6, "read"), (2, "render"),
-                (2 if with_widget else 0, "widget"),
-            ])
-            d = ch.pick("img", imgs)
-            im = d["im"]
-            desc = op
-            if op == "set_size":
-                what = ch.pick("what", ("FIT", "AUTO", "ORIGINAL", "FIT_TO_WIDTH", "width",
-                                        "height", "both"))
-                fk = ch.pick("frame", ("default", "abs", "rel", "mixed"))
-                t = env.term()
-                if fk == "default":
-                    frame = (0, -2)
-                elif fk == "abs":
-                    frame = (ch.skewed("fw", 1, 320), ch.skewed("fh", 1, 130))
-                elif fk == "rel":
-                    frame = (-ch.int("frw", 0, t[0] + 2), -ch.int("frh", 0, t[1] + 2))
-                    ctx.probe("relative_frame")
-                else:
-                    frame = (ch.skewed("fw", 1, 320), -ch.int("frh", 0, t[1] + 2))
-                if what == "both":
-                    wv, hv = ch.skewed("sw", 1, 400), ch.skewed("sh", 1, 200)
-                    im.set_size(wv, hv)
-                    desc = "image.set_size(%d, %d)" % (wv, hv)
-                    check(im.size == (wv, hv), "manual_size_not_stored_unchanged",
-                          {"got": repr(im.size), "expected": (wv, hv)}, "size")
-                elif what in ("width", "height"):
-                    v = ch.skewed("dim", 1, 300)
-                    im.set_size(**{what: v}, frame_size=frame)
-                    desc = "image.set_size(%s=%d, frame_size=%s)" % (what, v, frame)
-                    check_size(d, what, tuple(im.size), frame, desc, given=v)
-                else:
-                    im.set_size(getattr(Size, what), frame_size=frame) if ch.bool("asw", 0.5) \
-                        else im.set_size(height=getattr(Size, what), frame_size=frame)
-                    desc = "image.set_size(Size.%s, frame_size=%s)" % (what, frame)
-                    check_size(d, what, tuple(im.size), frame, desc)
-                d["model"] = ("fixed", tuple(im.size))
-                d["set_at"] = env_changes[0]
-            elif op == "assign":
-                if ch.bool("tuple", 0.4):
-                    v = (ch.skewed("sw", 1, 400), ch.skewed("sh", 1, 200))
-                    im.size = v
-                    d["model"] = ("fixed", v)
-                    desc = "image.size = %s" % (v,)
-                else:
-                    m = ch.pick("member", ("FIT", "AUTO", "ORIGINAL", "FIT_TO_WIDTH"))
-                    im.size = getattr(Size, m)
-                    d["model"] = ("dynamic", m)
-                    desc = "image.size = Size.%s" % m
-                d["set_at"] = env_changes[0]
-            elif op == "prop":
-                which = ch.pick("which", ("width", "height"))
-                v = ch.skewed("dim", 1, 300)
-                setattr(im, which, v)
-                desc = "image.%s = %d" % (which, v)
-                check_size(d, which, tuple(im.size), (0, -2), desc, given=v)
-                d["model"] = ("fixed", tuple(im.size))
-                d["set_at"] = env_changes[0]
-            elif op == "resize":
-                c2, r2 = ch.skewed("cols2", 1, 300), ch.skewed("rows2", 1, 120)
-                vt.resize(r2, c2)
-                desc = "terminal resized to %dx%d" % (c2, r2)
-                env_changes[0] += 1
-            elif op == "cellpx":
-                vt.cell_px = (ch.skewed("cw2", 1, 40), ch.skewed("chh2", 1, 40))
-                if ch.bool("and_resize", 0.5):
-                    vt.resize(ch.skewed("rows2", 1, 120), ch.skewed("cols2", 1, 300))
-                desc = "cell size now %s px (terminal %dx%d)" % (vt.cell_px, vt.cols, vt.rows)
-                env_changes[0] += 1
-            elif op == "ratio":
-                kind = ch.pick("rk", ("float", "float", "FIXED", "DYNAMIC"))
-                try:
-                    if kind == "float":
-                        v = ch.pick("rv", (0.5, 0.43, 1.0, 0.2, 2.0, 0.333))
-                        ti.set_cell_ratio(v)
-                        desc = "set_cell_ratio(%s)" % v
+        try:
+            for i in range(n_ops):
+                op = ch.weighted("op", [
+                    (6, "set_size"), (3, "assign"), (2, "prop"), (4, "resize"), (2, "cellpx"),
+                    (3, "ratio"), (1, "swap"), (6, "read"), (2, "render"),
+                    (2 if with_widget else 0, "widget"),
+                ])
+                d = ch.pick("img", imgs)
+                im = d["im"]
+                desc = op
+                if op == "set_size":
+                    what = ch.pick("what", ("FIT", "AUTO", "ORIGINAL", "FIT_TO_WIDTH", "width",
+                                            "height", "both"))
+                    fk = ch.pick("frame", ("default", "abs", "rel", "mixed"))
+                    t = env.term()
+                    if fk == "default":
+                        frame = (0, -2)
+                    elif fk == "abs":
+                        frame = (ch.skewed("fw", 1, 320), ch.skewed("fh", 1, 130))
+                    elif fk == "rel":
+                        frame = (-ch.int("frw", 0, t[0] + 2), -ch.int("frh", 0, t[1] + 2))
+                        ctx.probe("relative_frame")
                     else:
-                        ti.set_cell_ratio(getattr(ti.AutoCellRatio, kind))
-                        desc = "set_cell_ratio(%s)" % kind
-                        if kind == "DYNAMIC":
-                            ctx.probe("dynamic_cell_ratio")
-                except ti.exceptions.TermImageError:
-                    desc += " -> unsupported"
-                env_changes[0] += 1
-            elif op == "swap":
-                (ti.enable_win_size_swap if ch.bool("on", 0.5) else ti.disable_win_size_swap)()
-                desc = "toggle win size swap -> %s" % w.utils._swap_win_size
-                env_changes[0] += 1
-            elif op == "read":
-                kind, val = d["model"]
-                rs = tuple(im.rendered_size)
-                desc = "read image.size=%r rendered_size=%s" % (im.size, rs)
-                if d["set_at"] is not None and env_changes[0] > d["set_at"]:
-                    ctx.probe("env_change_between_set_and_read")
-                    ctx.nontrivial = True
-                    ctx.probe("fixed_size_survived_resize" if kind == "fixed"
-                              else "dynamic_size_followed_resize")
-                if kind == "fixed":
-                    check(rs == val, "rendered_size_of_fixed_size_differs",
-                          {"rendered_size": rs, "size": val}, "read")
+                        frame = (ch.skewed("fw", 1, 320), -ch.int("frh", 0, t[1] + 2))
+                    if what == "both":
+                        wv, hv = ch.skewed("sw", 1, 400), ch.skewed("sh", 1, 200)
+                        im.set_size(wv, hv)
+                        desc = "image.set_size(%d, %d)" % (wv, hv)
+                        check(im.size == (wv, hv), "manual_size_not_stored_unchanged",
+                              {"got": repr(im.size), "expected": (wv, hv)}, "size")
+                    elif what in ("width", "height"):
+                        v = ch.skewed("dim", 1, 300)
+                        im.set_size(**{what: v}, frame_size=frame)
+                        desc = "image.set_size(%s=%d, frame_size=%s)" % (what, v, frame)
+                        check_size(d, what, tuple(im.size), frame, desc, given=v)
+                    else:
+                        im.set_size(getattr(Size, what), frame_size=frame) if ch.bool("asw", 0.5) \
+                            else im.set_size(height=getattr(Size, what), frame_size=frame)
+                        desc = "image.set_size(Size.%s, frame_size=%s)" % (what, frame)
+                        check_size(d, what, tuple(im.size), frame, desc)
+                    d["model"] = ("fixed", tuple(im.size))
+                    d["set_at"] = env_changes[0]
+                elif op == "assign":
+                    if ch.bool("tuple", 0.4):
+                        v = (ch.skewed("sw", 1, 400), ch.skewed("sh", 1, 200))
+                        im.size = v
+                        d["model"] = ("fixed", v)
+                        desc = "image.size = %s" % (v,)
+                    else:
+                        m = ch.pick("member", ("FIT", "AUTO", "ORIGINAL", "FIT_TO_WIDTH"))
+                        im.size = getattr(Size, m)
+                        d["model"] = ("dynamic", m)
+                        desc = "image.size = Size.%s" % m
+                    d["set_at"] = env_changes[0]
+                elif op == "prop":
+                    which = ch.pick("which", ("width", "height"))
+                    v = ch.skewed("dim", 1, 300)
+                    setattr(im, which, v)
+                    desc = "image.%s = %d" % (which, v)
+                    check_size(d, which, tuple(im.size), (0, -2), desc, given=v)
+                    d["model"] = ("fixed", tuple(im.size))
+                    d["set_at"] = env_changes[0]
+                elif op == "resize":
+                    c2, r2 = ch.skewed("cols2", 1, 300), ch.skewed("rows2", 1, 120)
+                    vt.resize(r2, c2)
+                    desc = "terminal resized to %dx%d" % (c2, r2)
+                    env_changes[0] += 1
+                elif op == "cellpx":
+                    vt.cell_px = (ch.skewed("cw2", 1, 40), ch.skewed("chh2", 1, 40))
+                    if ch.bool("and_resize", 0.5):
+                        vt.resize(ch.skewed("rows2", 1, 120), ch.skewed("cols2", 1, 300))
+                    desc = "cell size now %s px (terminal %dx%d)" % (vt.cell_px, vt.cols, vt.rows)
+                    env_changes[0] += 1
+                elif op == "ratio":
+                    kind = ch.pick("rk", ("float", "float", "FIXED", "DYNAMIC"))
+                    try:
+                        if kind == "float":
+                            v = ch.pick("rv", (0.5, 0.43, 1.0, 0.2, 2.0, 0.333))
+                            ti.set_cell_ratio(v)
+                            desc = "set_cell_ratio(%s)" % v
+                        else:
+                            ti.set_cell_ratio(getattr(ti.AutoCellRatio, kind))
+                            desc = "set_cell_ratio(%s)" % kind
+                            if kind == "DYNAMIC":
+                                ctx.probe("dynamic_cell_ratio")
+                    except ti.exceptions.TermImageError:
+                        desc += " -> unsupported"
+                    env_changes[0] += 1
+                elif op == "swap":
+                    (ti.enable_win_size_swap if ch.bool("on", 0.5) else ti.disable_win_size_swap)()
+                    desc = "toggle win size swap -> %s" % w.utils._swap_win_size
+                    env_changes[0] += 1
+                elif op == "read":
+                    kind, val = d["model"]
+                    rs = tuple(im.rendered_size)
+                    desc = "read image.size=%r rendered_size=%s" % (im.size, rs)
+                    if d["set_at"] is not None and env_changes[0] > d["set_at"]:
+                        ctx.probe("env_change_between_set_and_read")
+                        ctx.nontrivial = True
+                        ctx.probe("fixed_size_survived_resize" if kind == "fixed"
+                                  else "dynamic_size_followed_resize")
+                    if kind == "fixed":
+                        check(rs == val, "rendered_size_of_fixed_size_differs",
+                              {"rendered_size": rs, "size": val}, "read")
+                    else:
+                        check_size(d, val, rs, (0, -2), desc)
+                        check((im.rendered_width, im.rendered_height) == rs,
+                              "rendered_width_height_disagree_with_rendered_size",
+                              {"w": im.rendered_width, "h": im.rendered_height, "size": rs}, "read")
+                elif op == "render":
+                    rs = tuple(im.rendered_size)
+                    if rs[0] * rs[1] > 4000 or (not d["text"] and rs[0] * rs[1] > 600):
+                        continue
+                    before = im.size
+                    try:
+                        out = str(im)
+                    except Exception as e:
+                        raise Violation("render_raised", {"exc": repr(e), "size": rs}, "render")
+                    desc = "str(image) at %s" % (rs,)
+                    check(im.size == before and type(im.size) is type(before),
+                          "rendering_changed_the_size_setting",
+                          {"before": repr(before), "after": repr(im.size)}, "render")
+                    check(out.count("\n") == rs[1] - 1, "render_line_count_differs_from_rendered_height",
+                          {"lines": out.count("\n") + 1, "rendered_size": rs}, "render")
+                    if isinstance(before, Size):
+                        ctx.probe("render_kept_dynamic_size")
                 else:
-                    check_size(d, val, rs, (0, -2), desc)
-                    check((im.rendered_width, im.rendered_height) == rs,
-                          "rendered_width_height_disagree_with_rendered_size",
-                          {"w": im.rendered_width, "h": im.rendered_height, "size": rs}, "read")
-            elif op == "render":
-                rs = tuple(im.rendered_size)
-                if rs[0] * rs[1] > 4000 or (not d["text"] and rs[0] * rs[1] > 600):
-                    continue
-                before = im.size
-                try:
-                    out = str(im)
-                except Exception as e:
-                    raise Violation("render_raised", {"exc": repr(e), "size": rs}, "render")
-                desc = "str(image) at %s" % (rs,)
-                check(im.size == before and type(im.size) is type(before),
-                      "rendering_changed_the_size_setting",
-                      {"before": repr(before), "after": repr(im.size)}, "render")
-                check(out.count("\n") == rs[1] - 1, "render_line_count_differs_from_rendered_height",
-                      {"lines": out.count("\n") + 1, "rendered_size": rs}, "render")
-                if isinstance(before, Size):
-                    ctx.probe("render_kept_dynamic_size")
-            else:
-                from term_image.widget import UrwidImage
-                from PIL import Image
-                wi = type(im)(Image.new("L", (d["ow"], d["oh"])))
-                upscale = ch.bool("upscale", 0.5)
-                uw = UrwidImage(wi, upscale=upscale)
-                maxcol = ch.skewed("maxcol", 1, min(120, max(1, vt.cols)))
-                announced = uw.rows((maxcol,))
-                if announced * maxcol > 3000:
-                    continue
-                canv = uw.render((maxcol,))
-                desc = "UrwidImage(upscale=%s).rows((%d,)) = %d, rendered rows = %d" % (
-                    upscale, maxcol, announced, canv.rows())
-                ctx.probe("flow_widget_rows")
-                check(announced == canv.rows(), "flow_widget_rows_differ_from_rendered_rows",
-                      {"announced": announced, "rendered": canv.rows(), "maxcol": maxcol,
-                       "source": (d["ow"], d["oh"]), "upscale": upscale}, "widget")
-            ctx.op(desc)
-            key.append(desc)
-            check_models(desc)
+                    from term_image.widget import UrwidImage
+                    from PIL import Image
+                    wi = type(im)(Image.new("L", (d["ow"], d["oh"])))
+                    upscale = ch.bool("upscale", 0.5)
+                    uw = UrwidImage(wi, upscale=upscale)
+                    maxcol = ch.skewed("maxcol", 1, min(120, max(1, vt.cols)))
+                    announced = uw.rows((maxcol,))
+                    if announced * maxcol > 3000:
+                        continue
+                    canv = uw.render((maxcol,))
+                    desc = "UrwidImage(upscale=%s).rows((%d,)) = %d, rendered rows = %d" % (
+                        upscale, maxcol, announced, canv.rows())
+                    ctx.probe("flow_widget_rows")
+                    check(announced == canv.rows(), "flow_widget_rows_differ_from_rendered_rows",
+                          {"announced": announced, "rendered": canv.rows(), "maxcol": maxcol,
+                           "source": (d["ow"], d["oh"]), "upscale": upscale}, "widget")
+                ctx.op(desc)
+                key.append(desc)
+                check_models(desc)
+        except Violation:
+            raise
+        except Exception as e:  # the library raised where the documentation promises a size
+            raise Violation("sizing_operation_raised",
+                            {"exc": repr(e), "after": key[-3:], "op": desc}, "op")
         ctx.key(key)
         ctx.log("trace", key)
